@@ -617,7 +617,7 @@ theorem quic_capture_session2 (hl : H.Lawful) (h32 : H.sha256.outLen = 32) (L : 
   -- the session's export: the interleaved-history theorem
   have hmap : ((oneItems2 fl evsA.length evsB).map fun x => (keys, x.1, x.2)).map (·.2.2) =
       (oneItems2 fl evsA.length evsB).map (·.2) := by simp [List.map_map]
-  obtain ⟨_, r2⟩ := quic_connection_exact_interleaved_conformant maskFn H Pc (capInfo cap) hl h32 L hs hsok ch sh ca sa early
+  obtain ⟨_, r2⟩ := quic_interleaved_exact_conformant maskFn H Pc (capInfo cap) hl h32 L hs hsok ch sh ca sa early
     sel hsel ho hsa hca kl0 p0 d0 itemsA hklA c0 hfresh hd0l ⟨hm0, hms⟩ hins
     (fun x hx => (hcarAll x hx).2.1) (by rw [ht1]; exact hkeyed)
     ((oneItems2 fl evsA.length evsB).map fun x => (keys, x.1, x.2))
